@@ -645,3 +645,104 @@ func TestVerif_C19_Timeout(t *testing.T) {
 		}
 	}
 }
+
+// One controller, several hooks with ETag support, the same parent: each hook executor has its own
+// ETag cache. The endpoints hand out EQUAL ETag values for one parent (legal: an ETag is scoped to
+// its URL) but different bodies. Every If-None-Match a hook receives must be an ETag that this
+// very endpoint issued, and the decoded answer must be the body of the endpoint that was called -
+// also after the controller was "restarted" (new executors under the same controller name, new URLs).
+func TestVerif_C19_CachePerHook(t *testing.T) {
+	rep := sim.R()
+	var clock int64
+	tr := true
+	hookTypes := []common.HookType{common.SyncHook, common.FinalizeHook, common.CustomizeHook}
+	orders := [][]int{{0, 1, 2}, {0, 2, 1}, {1, 0, 2}, {1, 2, 0}, {2, 0, 1}, {2, 1, 0}}
+	for oi, order := range orders {
+		for _, ctype := range []common.ControllerType{common.CompositeController, common.DecoratorController} {
+			id := fmt.Sprintf("c19-cache-per-hook-%s-o%d", ctype, oi)
+			if !sim.WantCase(id) {
+				continue
+			}
+			rep.Begin("C19", id)
+			viol := func(sig, detail string) {
+				rep.Violation("C19", id, sig, detail, map[string]interface{}{"order": order, "controllerType": fmt.Sprint(ctype)})
+			}
+			site := sim.NewHookSite(&clock, nil)
+			var mu sync.Mutex
+			issued := map[string]map[string]bool{} // path -> ETags handed out by that endpoint
+			calls := 0
+			handler := func(path string) sim.HookHandler {
+				return func(call *sim.HookCall) sim.HookResponse {
+					mu.Lock()
+					defer mu.Unlock()
+					calls++
+					gen, _ := sim.Nested(call.Req, "parent", "spec", "content")
+					etag := fmt.Sprintf(`"E-%v"`, gen)
+					if inm := call.Header.Get("If-None-Match"); inm != "" {
+						if !issued[path][inm] {
+							viol("inm-not-issued-by-this-endpoint", fmt.Sprintf("endpoint %s received If-None-Match %s, an ETag it never handed out (issued here: %v)", path, inm, issued[path]))
+						}
+						if inm == etag {
+							return sim.HookResponse{Status: 304, Header: map[string]string{"ETag": etag}}
+						}
+					}
+					if issued[path] == nil {
+						issued[path] = map[string]bool{}
+					}
+					issued[path][etag] = true
+					return sim.HookResponse{Status: 200, Header: map[string]string{"ETag": etag}, Body: []byte(bodyFor(path))}
+				}
+			}
+			ctl := "ctl-" + id
+			mkExec := func(gen string) []WebhookExecutor {
+				var out []WebhookExecutor
+				for _, ht := range hookTypes {
+					path := fmt.Sprintf("%s%s", ht, gen)
+					site.Handle(path, handler(path))
+					url := site.URL(path)
+					ex, err := NewWebhookExecutor(&v1alpha1.Webhook{URL: &url, Etag: &v1alpha1.WebhookEtagConfig{Enabled: &tr}}, ctl, ctype, ht)
+					if err != nil || ex == nil {
+						rep.Violation("C20", id, "usable-webhook-rejected", fmt.Sprintf("webhook %s rejected: %v", path, err), nil)
+						return nil
+					}
+					out = append(out, ex)
+				}
+				return out
+			}
+			judged := 0
+			run := func(gen string, exs []WebhookExecutor) {
+				for round := 0; round < 3; round++ {
+					content := "g1"
+					if round == 2 {
+						content = "g2" // the parent changed: new ETag everywhere
+					}
+					for _, hi := range order {
+						path := fmt.Sprintf("%s%s", hookTypes[hi], gen)
+						var resp compositev1.CompositeHookResponse
+						var err error
+						if stack, p := sim.Guard(func() { err = exs[hi].Call(request("p", content), &resp) }); p {
+							viol("panic:"+sim.PanicSite(stack), stack)
+							continue
+						}
+						judged++
+						if err != nil {
+							viol("call-failed", fmt.Sprintf("call of %s (round %d) failed: %v", path, round, err))
+						} else if servedFor(&resp) != path {
+							viol("body-of-another-endpoint", fmt.Sprintf("call of %s (round %d) was answered with the body of %q", path, round, servedFor(&resp)))
+						}
+					}
+				}
+			}
+			if exs := mkExec(""); exs != nil {
+				run("", exs)
+			}
+			// the controller is restarted with other URLs: new executors under the same controller name
+			if exs := mkExec("-v2"); exs != nil {
+				run("-v2", exs)
+			}
+			site.Close()
+			rep.Counter("C19", "per_hook_cache_calls_judged", int64(judged))
+			rep.Case("C19", id, judged > 0, id, map[string]interface{}{"order": order, "controllerType": fmt.Sprint(ctype), "calls": judged, "endpointCalls": calls})
+		}
+	}
+}
